@@ -18,9 +18,18 @@ import (
 	"os"
 	"runtime"
 	"strconv"
+	"syscall"
 	"testing"
 	"time"
 )
+
+func verif8ThreadCPU() time.Duration {
+	var ru syscall.Rusage
+	if err := syscall.Getrusage(1 /* RUSAGE_THREAD */, &ru); err != nil {
+		return 0
+	}
+	return time.Duration(ru.Utime.Nano() + ru.Stime.Nano())
+}
 
 type verif8Identity struct{}
 
@@ -61,19 +70,24 @@ func TestVerifC08Helpers(t *testing.T) {
 		var pan any
 		var cerr error
 		res := map[string]any{}
+		runtime.LockOSThread()
 		runtime.ReadMemStats(&ms0)
 		t0 := time.Now()
+		c0 := verif8ThreadCPU()
 		func() {
 			defer func() { pan = recover() }()
 			cerr = f(res)
 		}()
+		cpu := verif8ThreadCPU() - c0
 		el := time.Since(t0)
 		runtime.ReadMemStats(&ms1)
+		runtime.UnlockOSThread()
 		if pan != nil {
 			emit(map[string]any{"k": "Panic", "i": i, "kind": "Helper", "site": site, "class": class, "hex": hx, "panic": fmt.Sprint(pan)})
 			return
 		}
-		m["ms"] = int(el.Milliseconds())
+		m["ms"] = int(cpu.Milliseconds())
+		m["wall_ms"] = int(el.Milliseconds())
 		m["alloc_kb"] = int((ms1.TotalAlloc - ms0.TotalAlloc) / 1024)
 		if cerr == nil {
 			m["res"] = "ok"
